@@ -43,10 +43,10 @@ def body(ctx, parts, check):
 
 def run(ctx):
     hyp_run(ctx, 'c01.sync', scenario.sync_case(), body(ctx, PARTS, 'c01.sync'),
-            ctx.pick(120, 3000))
+            ctx.pick(120, 10000), frac=0.7)
     # large stratum: blocks of up to 300 extra transactions, thousands of UTXOs
     hyp_run(ctx, 'c01.sync', scenario.sync_case(max_blocks=12, large=True),
-            body(ctx, PARTS, 'c01.sync'), ctx.pick(6, 150))
+            body(ctx, PARTS, 'c01.sync'), ctx.pick(6, 500))
 
 
 def replay(ctx, check, case):
